@@ -473,6 +473,9 @@ func (v *vc) intrinsic(fr *frame, st *state, instr ssa.Instruction, name string,
 	if v.protoGetter(fr, st, name, c, args, res) {
 		return true
 	}
+	if name == "sort.Search" && v.sortSearch(fr, st, instr, c, args, res) {
+		return true
+	}
 	if strings.HasPrefix(name, "(*go.uber.org/zap.Logger).") || strings.HasPrefix(name, "go.uber.org/zap.") || strings.HasPrefix(name, "(*log.Logger).") || strings.HasPrefix(name, "log.Print") || strings.HasPrefix(name, "(*go.uber.org/zap.SugaredLogger).") || strings.HasPrefix(name, "go.uber.org/zap/zapcore.") {
 		v.trusted["model: logging (zap/log) has no effect on modelled state"] = true
 		set(v.havocResults(st, sig, "log")...)
@@ -521,7 +524,7 @@ func (v *vc) intrinsicMods(fr *frame, name string, c *ssa.CallCommon) (bool, []s
 	if strings.HasPrefix(name, "(time.Time).") || strings.HasPrefix(name, "time.") || strings.HasPrefix(name, "(*sync.") || strings.HasPrefix(name, "sync/atomic.Load") || strings.HasPrefix(name, "(encoding/binary.") || name == "encoding/binary.Write" || name == "bytes.Equal" {
 		return true, nil
 	}
-	if strings.HasPrefix(name, "fmt.Sprint") || strings.HasPrefix(name, "strconv.") {
+	if strings.HasPrefix(name, "fmt.Sprint") || strings.HasPrefix(name, "strconv.") || name == "sort.Search" {
 		return true, nil
 	}
 	if strings.HasPrefix(name, "(*go.uber.org/zap.") || strings.HasPrefix(name, "go.uber.org/zap") || strings.HasPrefix(name, "(*log.Logger).") || strings.HasPrefix(name, "log.Print") {
